@@ -12,14 +12,85 @@ import (
 // behave as the symbolic run's endpoints did (see engine/netstubs.go for the behaviour codes).
 
 type endpointRec struct {
+	Epoch int    `json:"epoch"`
 	Addr  string `json:"addr"`
 	TCP   int    `json:"tcp"`
 	UDP   int    `json:"udp"`
-	Reply string `json:"reply"`
+	Reply    string `json:"reply"`
+	ReplyTCP string `json:"reply_tcp"`
 	Hdr   string `json:"hdr"`
 }
 
 var endpointAddrs = map[int]string{}
+
+type liveEndpoint struct {
+	port int
+	tl   net.Listener
+	ul   *net.UDPConn
+}
+
+var liveEndpoints = map[int]*liveEndpoint{}
+var endpointEpoch = 0
+
+func endpointRecFor(i, epoch int) endpointRec {
+	want := fmt.Sprintf("k%d:88", i)
+	rec := endpointRec{Addr: want, TCP: 1, UDP: 1}
+	for _, e := range rf.Endpoints {
+		if e.Addr == want && e.Epoch == epoch {
+			rec = e
+		}
+	}
+	return rec
+}
+
+// serve starts endpoint i's listeners on its port with the behaviour recorded for the current epoch.
+func (le *liveEndpoint) serve(i int) bool {
+	rec := endpointRecFor(i, endpointEpoch)
+	reply, _ := hex.DecodeString(rec.Reply)
+	replyTCP, _ := hex.DecodeString(rec.ReplyTCP)
+	hdr, _ := hex.DecodeString(rec.Hdr)
+	if rec.TCP != 1 {
+		tl, err := net.Listen("tcp", fmt.Sprintf("127.0.0.1:%d", le.port))
+		if err != nil {
+			return false
+		}
+		le.tl = tl
+		go serveTCP(tl, rec.TCP, hdr, replyTCP)
+	}
+	if rec.UDP != 1 {
+		ul, err := net.ListenUDP("udp", &net.UDPAddr{IP: net.IPv4(127, 0, 0, 1), Port: le.port})
+		if err != nil {
+			return false
+		}
+		le.ul = ul
+		go serveUDP(ul, rec.UDP, reply)
+	}
+	return true
+}
+
+func (le *liveEndpoint) stop() {
+	if le.tl != nil {
+		le.tl.Close()
+		le.tl = nil
+	}
+	if le.ul != nil {
+		le.ul.Close()
+		le.ul = nil
+	}
+}
+
+// NextEpoch: from now on every endpoint behaves in a new, unrelated way (same addresses).
+func NextEpoch() {
+	load()
+	endpointEpoch++
+	for i, le := range liveEndpoints {
+		le.stop()
+		for try := 0; try < 50 && !le.serve(i); try++ {
+			le.stop()
+			time.Sleep(20 * time.Millisecond)
+		}
+	}
+}
 
 // Endpoint returns the address of KDC endpoint i ("k<i>:88" under gosym; a live loopback port natively).
 func Endpoint(i int) string {
@@ -27,37 +98,25 @@ func Endpoint(i int) string {
 	if a, ok := endpointAddrs[i]; ok {
 		return a
 	}
-	want := fmt.Sprintf("k%d:88", i)
-	rec := endpointRec{Addr: want, TCP: 1, UDP: 1}
-	for _, e := range rf.Endpoints {
-		if e.Addr == want {
-			rec = e
-		}
-	}
-	reply, _ := hex.DecodeString(rec.Reply)
-	hdr, _ := hex.DecodeString(rec.Hdr)
 	for try := 0; try < 50; try++ {
-		// reserve a port number by binding TCP, then bind the same number for UDP
+		// reserve a port number that is free for TCP and UDP
 		tl, err := net.Listen("tcp", "127.0.0.1:0")
 		if err != nil {
 			continue
 		}
 		port := tl.Addr().(*net.TCPAddr).Port
 		ul, err := net.ListenUDP("udp", &net.UDPAddr{IP: net.IPv4(127, 0, 0, 1), Port: port})
+		tl.Close()
 		if err != nil {
-			tl.Close()
 			continue
 		}
-		if rec.TCP == 1 {
-			tl.Close() // refuses connections
-		} else {
-			go serveTCP(tl, rec.TCP, hdr, reply)
+		ul.Close()
+		le := &liveEndpoint{port: port}
+		if !le.serve(i) {
+			le.stop()
+			continue
 		}
-		if rec.UDP == 1 {
-			ul.Close() // ICMP port unreachable: the client's read fails at once
-		} else {
-			go serveUDP(ul, rec.UDP, reply)
-		}
+		liveEndpoints[i] = le
 		a := fmt.Sprintf("127.0.0.1:%d", port)
 		endpointAddrs[i] = a
 		return a
@@ -120,14 +179,9 @@ func serveUDP(c *net.UDPConn, beh int, reply []byte) {
 // EndpointAnswers: whether endpoint i answers correctly over TCP (tcp) / UDP (ghost knowledge of the harness).
 func EndpointAnswers(i int, tcp bool) bool {
 	load()
-	want := fmt.Sprintf("k%d:88", i)
-	for _, e := range rf.Endpoints {
-		if e.Addr == want {
-			if tcp {
-				return e.TCP == 0
-			}
-			return e.UDP == 0
-		}
+	e := endpointRecFor(i, endpointEpoch)
+	if tcp {
+		return e.TCP == 0
 	}
-	return false
+	return e.UDP == 0
 }
